@@ -344,6 +344,13 @@ func (e *Engine) applyContract(s *State, f *Frame, x ssa.Instruction, callee *ss
 		if e.mode == COMPLETE && ct.Kind == "circuit" {
 			for k, cl := range ct.Honest {
 				t := c.evalBool(cl.Expr)
+				if e.curC != nil && e.curC.Flags["honest-callees-assumed"] && len(s.stack) == 1 {
+					// composition level: "the proof is valid" is taken to mean that the acceptance premises of the
+					// gadgets called here hold; what remains to prove is that the glue code never fails under them
+					s.assume(t)
+					e.note("honest-callees-assumed: in COMPLETE mode the honest premises of callees of " + funcKey(e.curFn) + " are the definition of a valid input (assumed), e.g. " + key)
+					continue
+				}
 				e.emit(s, "honest", fmt.Sprintf("%s.hon%d", site, k), t, x.Pos(), cl.Src)
 			}
 		}
